@@ -311,7 +311,10 @@ PROPS = {
                 "one depth-limited analysis each) around the same position - as played, as a clean FEN, with a half-move clock of "
                 "100-k (outside the property's scope), with evaluation noise (outside the scope); every in-scope analysis must "
                 "report the exhaustive value and a best first move whatever the engine analysed before; non-trivial = a series "
-                "with at least one in-scope analysis after another game. evaluations = sequences.",
+                "with at least one in-scope analysis after another game. evaluations = sequences. C11/ponderseed: a real table seeded by a "
+                "search restricted to ONE root move (search.Context.Ponder; any legal move, also one the exploration predicate rejects) at depth d1, "
+                "then an ordinary search of the same root at depth d2 > d1 on that table: exhaustive value and a best explored first move; "
+                "labelled by whether the predicate rejects the move.",
         "assumptions": COMMON_ASSUMPTIONS + ["table sizes >= 32 bytes (smaller sizes are not constructible: NewTranspositionTable panics)",
                                              "stored positions are re-valued without their history, which is sound under the property's no-repetition precondition"],
         "level_text": "Exploration: ~4k search sequences (~15k searches) per quick run, from one-slot to 4 MiB tables, each search "
@@ -377,7 +380,8 @@ PROPS = {
                 "halt / halt-ungated); time-control cases with moves-to-go != 0 or < 1 s left. evaluations = cases. "
                 "C15/again: second and later analyses of an engine with Hash 0-2 MB, gated iteration by iteration: after a completed analysis of depth D (and 0-2 moves of its variation played) an analysis with limit L searches and reports depth 1, 2, ... in order and ends by itself exactly at L (or at a forced mate it reports itself); non-trivial = the first analysis reached depth >= 2. "
                 "A quarter of the C15/iterative cases set a (generous) time-control option; a gated halt must cancel the context of the pending iteration within 5 s. C15/clock: 0-400 ms on both clocks with depth 1 held at the gate for 0-25 ms (the hard limit expires during depth 1): depth 1 must still be searched, reported faithfully and returned by Halt(). C15/halttwice: iteration k completes while a first Halt() is in progress (held at the gate's exit), is then reported; a second Halt() must not return anything shallower. C15/timecontrol draws moves-to-go over the whole int range (integer-width boundaries included). "
-                "C15/clock also sets a depth limit far beyond what the clock allows in half of its cases: the clock still rules.",
+                "C15/clock also sets a depth limit far beyond what the clock allows in half of its cases: the clock still rules. "
+                "C15/lag: (a) a reader that reads 0..L-1 reports promptly and then nothing until the analysis had time to end by itself: what it reads is in increasing depth order, faithful, and the LAST report before the stream closes (and Halt() afterwards) is the depth the analysis ends at; (b) Halt requested while depth 1 is pending, with a table whose Used() takes 0-8 ms: Halt returns depth 1, never the empty result. Non-trivial = (a) ends at depth >= 2 with a report left unread, (b) delay > 0.",
         "assumptions": COMMON_ASSUMPTIONS + ["node counts are not compared (the property names score and PV)", "liveness is judged with a 30 s grace period"],
         "level_text": "Exploration with a harness-owned schedule: ~3k analyses per quick run, every reported depth compared with "
                       "a direct search and the stop/halt rules checked at generated halt points; 40k time-control parameter sets.",
@@ -403,7 +407,8 @@ PROPS = {
                 "unlimited analysis. Non-trivial = distinct cases with depth >= 2 and a root with history (deterministic), depth >= 2 "
                 "(engine). evaluations = cases (each 6+ searches). "
                 "C18/deterministic repeats a search restricted to a line (search.Context.Ponder) with the very same context: equal results, context unchanged. C18/otherengines: the same engine alone vs. with another engine (Hash 1-256 MB) analysing before or alongside. "
-                "C18/engine with noise: a new game set up (Reset + moves) while an analysis is still running must then analyse exactly like a fresh engine with the same seed.",
+                "C18/engine with noise: a new game set up (Reset + moves) while an analysis is still running must then analyse exactly like a fresh engine with the same seed. "
+                "The restricted search is also run by a search object that has never searched anything and by one whose previous search was of another root: same result.",
         "assumptions": COMMON_ASSUMPTIONS + ["searches are repeated on fresh forks of the same game state, as the engine does",
                                              "with noise on, only the last report of a finished analysis is compared (the PV channel keeps the latest report only)"],
         "level_text": "Exploration: ~4k search cases x 6-9 searches and 2.5k engine cases per quick run; metamorphic relations "
@@ -497,7 +502,8 @@ PROPS = {
                 "while a search was held, a held iteration was released singly, or shutdown happened with a search in flight; all "
                 "ungated scripts with a go. evaluations = scripts. "
                 "Odd clocks (fallen flags, one clock only, moves-to-go without clocks) and malformed position lines ending in a pseudo-legal-but-illegal, non-pseudo-legal or unparsable move (the driver must go on or shut down) are part of the scripts. The quick tier ends with a short pass (a tenth of the scripts, other seeds) on the race-instrumented binary: a race report with a math/rand.(*Rand) frame is a violation (the thorough tier runs entirely on that binary). "
-                "Ungated scripts with a move-time go end with a goroutine census: 400 ms after shutdown no goroutine may be inside the driver package (gated scripts are exempt: a search may still be waiting for the harness's own gate).",
+                "Ungated scripts with a move-time go end with a goroutine census: 400 ms after shutdown no goroutine may be inside the driver package (gated scripts are exempt: a search may still be waiting for the harness's own gate). "
+                "Malformed position lines also include FENs that have lost fields (0-5 of 6 left), with or without a move list.",
         "assumptions": COMMON_ASSUMPTIONS + ["the Go scheduler between gates is not owned by the harness", "race-detector reports in these runs are recorded as diagnostics (C17 is where race freedom is demanded), with one exception: concurrent use of a single math/rand.Rand, which is documented as unsafe and panics (index out of range) under contention - a crash waiting for its schedule - is a violation",
                                              "lines the driver answers by a deliberate shutdown (unparsable go arguments) end the script: clean closure is required"],
         "level_text": "Exploration with a harness-owned schedule for the orderings that matter (search completion vs command "
